@@ -56,6 +56,15 @@ def fold_function(fi):
     pinned = set(PIN["locals"].get(fi.qualname, ()))
     if fi.qualname not in PIN["locals"]:
         return 0
+    # renamed locals look like new ones: when the function has lost as many pinned locals as it has gained new ones, the new names are
+    # (most likely) the old locals under another name - the rules already follow renamed locals by shape, so nothing is folded there
+    present = {n.id for n in ast.walk(fn) if isinstance(n, ast.Name) and isinstance(n.ctx, ast.Store)}
+    a_ = fn.args
+    params = {x.arg for x in a_.posonlyargs + a_.args + a_.kwonlyargs}
+    missing = {p for p in pinned if p not in present and p not in params}
+    gained = {p for p in present if p not in pinned}
+    if missing and len(gained) <= len(missing):
+        return 0
     total = 0
     for _ in range(80):
         for n in ast.walk(fn):
